@@ -164,3 +164,27 @@ fn exclusive_after_concurrent_clones() {
         assert_eq!(drops.load(Ordering::SeqCst), 1);
     });
 }
+
+/// one increment below the ceiling: two threads clone concurrently; exactly one may take the last share, the other must fall
+/// back to a private copy -- the stored count must never go past the ceiling (the check and the increment are ONE atomic step)
+#[test]
+fn ceiling_minus_one_concurrent_clones() {
+    model(|| {
+        let (a, drops) = mk();
+        let b = SendS(a.clone());
+        let c = SendS(a.clone());
+        a.verif_force_count(usize::MAX - 2);            // one more increment is possible, two are not
+        let t1 = thread::spawn(move || { let b = b; let x = b.0.clone(); assert_eq!(x.as_ref().read(), 7); let shared = x.verif_addr() == b.0.verif_addr(); (b, SendS(x), shared) });
+        let t2 = thread::spawn(move || { let c = c; let x = c.0.clone(); assert_eq!(x.as_ref().read(), 7); let shared = x.verif_addr() == c.0.verif_addr(); (c, SendS(x), shared) });
+        let (b, x1, s1) = t1.join().unwrap();
+        let (c, x2, s2) = t2.join().unwrap();
+        assert!(!(s1 && s2), "both concurrent clones took a share although only one increment was left below the ceiling");
+        let n = a.verif_count();
+        assert!(n == usize::MAX || n == usize::MAX - 1, "the share count went past the ceiling or wrapped: {}", n);
+        assert!(!a.is_unique());
+        // back to the true count before releasing: a, b, c + the clones that share
+        a.verif_force_count(2 + s1 as usize + s2 as usize);
+        drop(x1); drop(x2); drop(b); drop(c); drop(a);
+        assert_eq!(drops.load(Ordering::SeqCst), 1 + (!s1) as usize + (!s2) as usize);
+    });
+}
